@@ -49,7 +49,7 @@ INV2PROP = {
     "RewritePreservesContents": "C13", "OneVersionPerCommit": "C13",
     "VersionColumnsCorrect": "C17",
     "RowIdStable": "C18", "RowIdUnique": "C18",
-    "TakeEqualsScan": "C15", "TakeRowsEqualsScan": "C15",
+    "TakeEqualsScan": "C15", "TakeRowsEqualsScan": "C15", "CopyReadsSame": "C42",
 }
 
 
